@@ -213,6 +213,15 @@ fn privacy_programs() -> Vec<(String, bool, String)> {
     out.push(("mod vault {\n    fn secret() { 42.0 }\n    pub fn open() { vault::secret() + vault::secret() }\n}\nfn dsp() { vault::open() }\n".to_string(), false, "private member named twice inside its module (control)".into()));
     // control: the owner itself and a child module may use the private member
     out.push(("mod osc { fn secret(x) { x * 2.0 } pub fn open(x) { osc::secret(x) } mod detail { pub fn twice(x) { osc::secret(x) } } pub fn t(x) { osc::detail::twice(x) } }\nfn dsp() { osc::open(1.0) + osc::t(1.0) }\n".to_string(), false, "own hierarchy".into()));
+    // type-level privacy (typing.rs; seed C17n): a private TYPE of a module referenced from outside -- by its plain name (the
+    // type checker finds it through the unique `$name` suffix), by a path, through `use`; a pub type stays usable
+    out.push(("mod m {\n    type alias Secret = float\n    pub fn id(x) { x }\n}\nfn dsp() {\n    let x: Secret = 3.0\n    x\n}\n".to_string(), true, "private type alias by its plain name in a let annotation at the top level".to_string()));
+    out.push(("mod m {\n    type alias Secret = float\n    pub fn id(x) { x }\n}\nfn k(x: Secret) -> Secret { x }\nfn dsp() { k(3.0) }\n".to_string(), true, "private type alias by its plain name in a top-level function signature".to_string()));
+    out.push(("mod outer {\n    mod inner {\n        type alias Secret = float\n        pub fn id(x) { x }\n    }\n}\nmod other {\n    fn k(x: Secret) -> Secret { x }\n    pub fn call(v) { k(v) }\n}\nfn dsp() { other::call(3.0) }\n".to_string(), true, "private type alias two modules deep by its plain name from a sibling module".to_string()));
+    out.push(("mod m {\n    type Secret = A | B(float)\n    pub fn id(x) { x }\n}\nfn k(x: Secret) -> float { 1.0 }\nfn dsp() { 0.0 }\n".to_string(), true, "private sum type by its plain name in a top-level function signature".to_string()));
+    out.push(("mod m {\n    type alias Secret = float\n    pub fn id(x) { x }\n}\nfn dsp() {\n    let x: m::Secret = 3.0\n    x\n}\n".to_string(), true, "private type alias by a qualified path".to_string()));
+    out.push(("mod m {\n    type alias Secret = float\n    pub fn id(x) { x }\n}\nuse m::Secret\nfn dsp() {\n    let x: Secret = 3.0\n    x\n}\n".to_string(), true, "private type alias through use".to_string()));
+    out.push(("mod m {\n    pub type alias Open = float\n    pub fn id(x) { x }\n}\nfn dsp() {\n    let x: Open = 3.0\n    x\n}\n".to_string(), false, "pub type alias by its plain name".to_string()));
     out
 }
 
@@ -454,6 +463,9 @@ fn let_release_programs() -> Vec<(&'static str, Vec<f64>, &'static str)> {
          "a tuple holding a boxed value is copied into a second variable in an inner block and used after that block"),
         (leak(format!("{pre}fn dsp(){{\n  let r = {{a = Cons(3.0, Nil), b = 2.0}}\n  let x = {{\n     let {{b = y}} = r\n     y\n  }}\n  head(r.a) + x\n}}\n")), vec![5.0; 4],
          "a record holding a boxed value is destructured by a partial record pattern in an inner block and used after that block"),
+        // finding F33: a closure stored in an ARRAY that is returned from the function that made it
+        ("fn make(k){ [|x| {x*k}] }\nfn dsp(){\n  let a = make(2.0)\n  a[0](3.0)\n}\n", vec![6.0; 4],
+         "an array holding a closure is returned from the function that created the closure, the element is called afterwards"),
     ]
 }
 // ---- drop_closure on hand-assembled bytecode (C12): a task closure that captures closures through its upvalue cells is
@@ -621,6 +633,50 @@ fn run_wasm_sched(src: &str, times: usize) -> Result<Vec<f64>, String> {
     }
     Ok(out)
 }
+/// C12 on the WASM runtime: closures are records carved out of a bump allocator in linear memory (`__alloc_ptr`); what lies
+/// between its value after global initialisation and its value after a tick is the storage of the closures (and transient
+/// cells) still live, so "live closures are bounded" reads: the pointer observed after tick N equals the one after tick 2N.
+/// Runs through WasmDspRuntime::run_dsp with the scheduler plugin (the code path of the CLI).
+fn wasm_alloc_after(src: &str, ticks: usize) -> Result<Vec<i32>, String> {
+    use mimium_lang::{Config, ExecContext};
+    use mimium_lang::compiler::wasmgen::WasmGenerator;
+    use mimium_lang::runtime::{self, DspRuntime};
+    use mimium_lang::runtime::wasm::engine::{WasmDspRuntime, WasmEngine};
+    let mut ctx = ExecContext::new([].into_iter(), None, Config::default());
+    ctx.add_system_plugin(mimium_scheduler::get_default_scheduler_plugin());
+    ctx.prepare_compiler();
+    let ext_fns = ctx.get_extfun_types();
+    let mir = ctx.get_compiler().ok_or("no compiler")?.emit_mir(src)
+        .map_err(|e| e.iter().map(|x| x.get_message()).collect::<Vec<_>>().join("; "))?;
+    let mut wasmgen = WasmGenerator::new(std::sync::Arc::new(mir), &ext_fns);
+    let bytes = wasmgen.generate().map_err(|e| format!("wasmgen: {e}"))?;
+    let plugin_fns = ctx.freeze_wasm_plugin_fns();
+    let workers = ctx.generate_wasm_audioworkers();
+    let mut engine = WasmEngine::new(&ext_fns, plugin_fns).map_err(|e| format!("wasm engine: {e}"))?;
+    engine.load_module(&bytes).map_err(|e| format!("wasm load: {e}"))?;
+    let mut rt = WasmDspRuntime::new(engine, None, None);
+    rt.set_wasm_audioworkers(workers);
+    let _ = rt.run_main();
+    let mut ptrs = vec![];
+    for t in 0..ticks {
+        if rt.run_dsp(runtime::Time(t as u64)) != 0 { return Err(format!("dsp failed at tick {t}")); }
+        let p = rt.engine_mut().current_module_mut().ok_or("no module")?.get_alloc_ptr().map_err(|e| format!("{e}"))?;
+        ptrs.push(p);
+    }
+    Ok(ptrs)
+}
+fn wasm_alloc_programs() -> Vec<(&'static str, &'static str)> {
+    vec![
+        ("a self-rescheduling task whose body builds and applies a closure",
+         "let acc = 0.0\nfn make_tick(){\n    letrec tick = | |{\n        let step = 1.0\n        acc = (|v| { v + step })(acc)\n        tick@(now+1.0)\n    }\n    tick\n}\nlet t = make_tick()\nt@1.0\nfn dsp(){\n    acc\n}\n"),
+        ("every firing wraps the next step in a fresh closure and schedules it",
+         "fn makecounter(){\n    let x = 0.0\n    letrec gen = | |{\n        x = x+1.0\n       | |{gen()}@(now+1.0)\n    }\n    | |{gen() }@1.0\n    let getter = | | {x}\n    getter\n}\nlet x_getter = makecounter();\nfn dsp(){\n    x_getter()\n}\n"),
+        ("a task that only reschedules itself",
+         "let x = 0.0\nfn tick(){\n  x = x + 1.0\n  tick@(now+1.0)\n}\ntick@1.0\nfn dsp(){\n  x\n}\n"),
+        ("dsp builds and applies a closure every sample, no scheduler activity",
+         "fn dsp(){\n    let k = 2.0\n    (|v| { v * k })(3.0)\n}\n"),
+    ]
+}
 fn branch_state_programs() -> Vec<(String, Vec<f64>, String)> {
     let mut v = branch_state_programs0();
     // a delay whose maximum is not integral, followed by another cell: the run-time length must be the published one
@@ -638,6 +694,10 @@ fn branch_state_programs() -> Vec<(String, Vec<f64>, String)> {
     v.push(("fn counter(){ self+1.0 }\nfn other(){ self+10.0 }\nfn foo(x = counter(), y = 200.0){ x+y }\nfn dsp(){\n  let a = other()\n  let b = foo({..})\n  a*1000.0 + b\n}\n".to_string(), vec![10201.0, 20202.0, 30203.0, 40204.0], "stateful default argument behind another cell".to_string()));
     v.push(("fn counter(){ self+1.0 }\nfn foo(x = counter(), y = 200.0){ x+y }\nfn dsp(){ foo({..}) + foo({..})*1000.0 }\n".to_string(), vec![201201.0, 202202.0, 203203.0, 204204.0], "stateful default argument used at two call sites".to_string()));
     v.push(("fn counter(){ self+1.0 }\nfn foo(x = counter(), y = 200.0){ x+y }\nfn dsp(){\n  let a = foo({y = 5.0})\n  let b = mem(a)\n  a*1000.0 + b\n}\n".to_string(), vec![6000.0, 7006.0, 8007.0, 9008.0], "stateful default argument next to an explicit one, a mem cell behind the call".to_string()));
+    // an explicitly generic function that calls a stateful function is specialised per argument type (seed C05n): every
+    // specialised copy owns the cells of the code it runs
+    v.push(("fn counter(){\n    self + 1.0\n}\nfn pass(x:a)->a{\n    let c = counter()\n    x\n}\nfn dsp(){\n    let a = pass(1.0)\n    let t = pass((2.0, 3.0))\n    a + t.0 + t.1 + counter()*10.0\n}\n".to_string(), vec![16.0, 26.0, 36.0, 46.0, 56.0], "generic function calling a counter, specialised for two argument types".to_string()));
+    v.push(("fn counter(){\n    self + 1.0\n}\nfn keep(x:a)->a{\n    let m = mem(counter())\n    let d = delay(4.0, m, 2.0)\n    x\n}\nfn dsp(){\n    let a = keep(1.0)\n    let b = counter()\n    a + b*10.0\n}\n".to_string(), vec![11.0, 21.0, 31.0, 41.0], "generic function with counter, mem and delay cells in front of another counter".to_string()));
     // stateful global initialisers (finding F26): their cells live in the global storage, which execute_main has to size
     v.push(("let g = mem(1.0)\nfn dsp(){\n  g + 5.0\n}\n".to_string(), vec![5.0, 5.0, 5.0, 5.0], "mem in a global initialiser".to_string()));
     v.push(("let g = delay(64.0, 3.0, 1.0)\nfn dsp(){\n  g + 2.0\n}\n".to_string(), vec![2.0, 2.0, 2.0, 2.0], "delay with a 66-word cell in a global initialiser".to_string()));
@@ -768,6 +828,12 @@ fn schedvm_programs() -> Vec<(String, Vec<f64>, String)> {
             vec![0.0, 0.0, 1.0, 1.0, 1.0, 1.0, 1.0, 2.0, 2.0, 2.0], "a closure assigned to a global from inside a function is scheduled again after its queue has drained".to_string()));
     v.push(("let x = 0.0\nfn step(n){\n    x = x + n\n    | | { step(n+1.0) }@(now + n)\n}\nlet _ = step(1.0)\nfn dsp(){ x }\n".to_string(),
             vec![1.0, 3.0, 3.0, 6.0, 6.0, 6.0, 10.0, 10.0], "a chain of one-shot closures, each created by the task before it".to_string()));
+    // boxed heap objects next to scheduled closures (seed C11n): the closure table and the heap are slot maps with the same
+    // key type, so a function value's heap-wrapper handle may also be a valid key of an UNRELATED closure
+    v.push(("type rec Seq = End | Step(float, Seq)\nfn total(s: Seq) -> float {\n    match s {\n        End => 0.0,\n        Step(v, rest) => v + total(rest)\n    }\n}\nlet melody = Step(6.0, End)\nfn makecounter(){\n    let x = 0.0\n    letrec gen = | |{\n        x = x+1.0\n        gen@(now+1.0)\n    }\n    let getter = | | {x}\n    gen@1.0\n    getter\n}\nlet x_getter = makecounter();\nfn dsp(){\n    x_getter() + total(melody) * 1000.0\n}\n".to_string(),
+            vec![6000.0, 6001.0, 6002.0, 6003.0, 6004.0, 6005.0, 6006.0, 6007.0], "a self-rescheduling closure next to a getter closure, one boxed list cell alive".to_string()));
+    v.push(("type rec Seq = End | Step(float, Seq)\nlet melody = Step(1.0, End)\nlet x = 0.0\nfn setup(unit){\n    let a = | |{ x = x + unit }\n    let b = | |{ x = x + unit * 10.0 }\n    let c = | |{ x = x + unit * 100.0 }\n    a@2.0\n    b@4.0\n    c@6.0\n}\nsetup(1.0)\nfn dsp(){\n    x\n}\n".to_string(),
+            vec![0.0, 0.0, 1.0, 1.0, 11.0, 11.0, 111.0, 111.0], "three one-shot closures, one boxed list cell alive".to_string()));
     v
 }
 /// (program A, program B, samples before the swap, expected outputs after the swap, description)
@@ -1351,6 +1417,24 @@ fn main() {
     }
     if args.get(1).map(|s| s.as_str()) == Some("loader-seq") {
         if let Some(f) = loaderseq::search() { println!("{f}"); }
+        return;
+    }
+    if args.get(1).map(|s| s.as_str()) == Some("wasm-alloc") {
+        let only: Option<usize> = args.get(2).and_then(|s| s.parse().ok());
+        const N: usize = 200;
+        for (i, (desc, src)) in wasm_alloc_programs().iter().enumerate() {
+            if let Some(o) = only { if o != i { continue; } }
+            match wasm_alloc_after(src, 2 * N) {
+                Ok(p) => {
+                    if p[N - 1] != p[2 * N - 1] {
+                        println!("FOUND index={i} value={desc:?} clause=C12[live closures after sample N == after sample 2N, WASM runtime] __alloc_ptr after tick {N} is {} but after tick {} it is {} ({} bytes per tick)", p[N - 1], 2 * N, p[2 * N - 1], (p[2 * N - 1] - p[N - 1]) as f64 / N as f64);
+                        return;
+                    }
+                }
+                Err(e) => { println!("FOUND index={i} value={desc:?} clause=C12[WASM runtime] the program does not run: {e}"); return; }
+            }
+        }
+        println!("NONE tried={}", wasm_alloc_programs().len());
         return;
     }
     if args.get(1).map(|s| s.as_str()) == Some("module-misc") {
